@@ -45,9 +45,14 @@
   submitted tasks must be fresh (client contract of the harness).
   Core Lean only.
 -/
-import Babylon.Gen.Exec
-
 namespace Babylon.Exec
+
+/-- `start()`: `_global_task_queue.reserve_and_clear(_global_capacity * 2)` and, per thread-local queue,
+`reserve_and_clear(_local_capacity * 2)`; tied to the source by `gen_queue_sizing` in Properties/C07.lean
+(the model does not import the generated file, so a source change re-checks the obligations without
+recompiling the proofs) -/
+def globalFactor : Nat := 2
+def localFactor : Nat := 2
 
 /-- what a queue cell carries: `Task{FUNCTION,f}` (identified by the id the harness gave `f`),
 `Task{STOP}` or `Task{WAKEUP}` -/
@@ -119,8 +124,8 @@ structure Cfg where
   bal : Option Nat        -- thread id of `_balance_thread` (none: interval unset)
   deriving Repr
 
-def Cfg.lslots (c : Cfg) : Nat := bitCeil (Babylon.Gen.Exec.localFactor * c.L)
-def Cfg.gslots (c : Cfg) : Nat := bitCeil (Babylon.Gen.Exec.globalFactor * c.G)
+def Cfg.lslots (c : Cfg) : Nat := bitCeil (localFactor * c.L)
+def Cfg.gslots (c : Cfg) : Nat := bitCeil (globalFactor * c.G)
 
 /-- which `try_pop` a thread is inside: its own local queue (`keep_execute`), slot `k` of the stealing
 scan, or slot `k` of the balance thread's sweep -/
